@@ -61,6 +61,7 @@ ASSUMPTIONS = [
     "flux maps are restricted to those whose analytic and discrete |grad psi|^2 >= 1e-3 in every cell (property: non-vanishing gradient)",
 ]
 REQUIRED_CLASSES = (
+    ["ops:integer-vertex-array"] +
     ["ops:order=%s" % o for o in ("col", "row", "snake")]
     + ["ops:cell=%s" % c for c in ("interior", "left-edge", "right-edge", "top-edge", "bottom-edge", "top-left-corner",
                                    "top-right-corner", "bottom-left-corner", "bottom-right-corner")]
@@ -179,8 +180,10 @@ def _ops_case(case):
     deriv = {"Dx": lambda f: f.d(0), "Dy": lambda f: f.d(1), "Dxx": lambda f: f.d(0).d(0), "Dxy": lambda f: f.d(0).d(1),
              "Dyy": lambda f: f.d(1).d(1)}
     combos = list(itertools.product(SPACINGS, ORIGINS[tier], R.ORDERS))
+    # one grid whose vertices are integers (voxel size 2 x 4, integer origin): exercised as float64, int64 and nested lists
+    combos += [((2.0, 4.0), (3.0, -8.0), order) for order in R.ORDERS]
     for gi, ((dx, dy), (x0, y0), order) in enumerate(combos):
-        vrot = (SPACINGS.index((dx, dy)) + ORIGINS[tier].index((x0, y0)) + R.ORDERS.index(order)) % 4   # tier independent
+        vrot = (int(dx * 4 + dy * 16) + int(abs(x0) * 10 + abs(y0)) + R.ORDERS.index(order)) % 4   # tier independent
         g = R.build_grid(nx, ny, dx, dy, x0, y0, order, vrot=vrot)
         gk = (nx, ny, dx, dy, x0, y0, order)
         classes.append("ops:order=%s" % order)
@@ -195,6 +198,21 @@ def _ops_case(case):
             viol.add("generate_derivative_operators:result-structure", _gdesc(g), "keys %s, each %dx%d" % (list(R.OPS), g["n"], g["n"]),
                      {k: list(np.shape(v)) for k, v in ops.items()})
             continue
+        # the same grid with its (here integer-valued) vertex coordinates passed as an integer array, and as nested lists:
+        # the operators must not depend on the container / dtype the vertices arrive in
+        if bool(np.all(np.asarray(g["verts"]) == np.round(np.asarray(g["verts"])))):
+            classes.append("ops:integer-vertex-array")
+            from cherab.tools.inversions.admt_utils import generate_derivative_operators as _gdo
+            for vname, vv in (("int64-array", np.asarray(g["verts"]).astype(np.int64)), ("nested-lists", np.asarray(g["verts"]).tolist())):
+                try:
+                    ops2 = _gdo(vv, g["m12"], g["m21"])
+                    worst2 = max(float(np.abs(np.asarray(ops2[k], dtype=float) - np.asarray(ops[k], dtype=float)).max()) for k in R.OPS)
+                except Exception as e:  # noqa
+                    viol.add("generate_derivative_operators:vertices=%s:raises:%s" % (vname, type(e).__name__), _gdesc(g), "same operators as for a float64 array", repr(e)[:200])
+                    continue
+                n += 1
+                if worst2 > 1e-12 * (1 + g["L"] / g["h"]) / g["h"] ** 2:
+                    viol.add("generate_derivative_operators:vertices=%s:differs-from-float64-vertices" % vname, _gdesc(g), 0.0, worst2)
         scale = 32 * R.EPS * (1 + g["L"] / g["h"])
         for op in R.OPS:
             M = np.asarray(ops[op], dtype=float)
